@@ -1,4 +1,8 @@
-package worldb
+// Command realprobe is the part of the C31 check that is NOT a simulation: it
+// runs the interpreter as shipped (built WITHOUT the verif tag, so none of the
+// hook files is compiled in) with the real DefaultExecHandler, real child
+// processes, real OS pipes and the real clock.
+package main
 
 import (
 	"context"
@@ -9,27 +13,40 @@ import (
 	"sort"
 	"strings"
 	"sync"
-	"testing"
 	"time"
 
 	"mvdan.cc/sh/v3/interp"
+	"mvdan.cc/sh/v3/syntax"
 )
 
-// TestRealProbe is NOT a simulation: it runs the interpreter with the real
-// DefaultExecHandler, real child processes, real OS pipes and the real
-// clock, cancels the context after 200 ms and checks that Run returns within
-// the kill timeout plus a generous margin with a non-nil error. It exists
-// because the stubbed commands of World B cannot see a regression in the
-// Cancel/WaitDelay wiring of DefaultExecHandler. Bounds are wide and each
-// case is retried once, so machine load cannot turn it into a false alarm.
-func TestRealProbe(t *testing.T) {
-	out := os.Getenv("VERIF_B_PROBE_OUT")
-	if out == "" {
-		t.Skip("no VERIF_B_PROBE_OUT")
+// ProbeResult is one case of the probe (the driver reads the same fields).
+type ProbeResult struct {
+	Name     string  `json:"name"`
+	Program  string  `json:"program"`
+	OK       bool    `json:"ok"`
+	Class    string  `json:"class,omitempty"`
+	Detail   string  `json:"detail,omitempty"`
+	Seconds  float64 `json:"seconds"`
+	Err      string  `json:"err"`
+	Attempts int     `json:"attempts"`
+}
+
+// Each case runs a program, cancels the context after 200 ms and requires Run
+// to return a non-nil error within the kill timeout plus a margin. Bounds are
+// wide and cases are retried, so machine load cannot turn it into a false
+// alarm.
+func main() {
+	if len(os.Args) < 2 {
+		fmt.Fprintln(os.Stderr, "usage: realprobe <result.json>")
+		os.Exit(2)
 	}
+	out := os.Args[1]
 	const killTimeout = 500 * time.Millisecond
 	const bound = killTimeout + 20*time.Second
-	cases := []struct{ name, prog string; silentStdin bool }{
+	cases := []struct {
+		name, prog  string
+		silentStdin bool
+	}{
 		{"sleep-fg", "sleep 100", false},
 		{"sigint-ignoring-child", `sh -c 'trap "" INT TERM; sleep 100'`, false},
 		{"sigint-ignoring-child-in-pipeline", `sh -c 'trap "" INT; sleep 100' | cat`, false},
@@ -108,7 +125,8 @@ func TestRealProbe(t *testing.T) {
 	wg.Wait()
 	b, _ := json.MarshalIndent(results, "", " ")
 	if err := os.WriteFile(out, b, 0o644); err != nil {
-		t.Fatal(err)
+		fmt.Fprintln(os.Stderr, err)
+		os.Exit(2)
 	}
 }
 
@@ -132,7 +150,7 @@ func spawnTime() time.Duration {
 
 func runRealProbe(name, prog string, silentStdin bool, killTimeout, bound time.Duration) ProbeResult {
 	res := ProbeResult{Name: name, Program: prog}
-	f, err := parseProg(prog, "")
+	f, err := syntax.NewParser(syntax.Variant(syntax.LangBash)).Parse(strings.NewReader(prog), "")
 	if err != nil {
 		res.Class, res.Detail = "harness", err.Error()
 		return res
